@@ -61,6 +61,20 @@ def gen_profile(rng, big=False):
 
 
 def gen_plan(rng, tier, index=0):
+    if index % 5 == 4:
+        # moment-matching workload: long profiles compressed to 5-8 layers, where the optimiser has real work to do (and now
+        # and then stops early); the profile buffer is refilled between calls
+        r = rng.sub("gctm-heavy")
+        prof = gen_profile(rng.sub("prof", 0), False)
+        prof.update({"N": r.randint(36, 60), "kind": r.choice(["regular", "irregular", "regular_float_range", "log"]), "zeros": None, "dup": 0,
+                     "decades": r.choice([1, 3]), "hmin": r.choice([0.0, 0.0, 10.0])})
+        steps = []
+        for _ in range(8):
+            steps.append({"op": "gctm", "prof": 0, "L": r.randint(5, 8), "perm": None, "units": None})
+            steps.append({"op": "refill", "prof": 0, "fill": r.randrange(10 ** 6), "which": "p"})
+        steps.append({"op": "og", "prof": 0, "L": 4, "R": 1, "stub": None})
+        from sim.worlds import c03
+        return {"ambient": rng.randrange(2 ** 31), "pool": {"mode": "inproc", "sched": c03.gen_sched(rng.sub("pool"))}, "profiles": [prof], "steps": steps}
     big = tier == "thorough" and rng.chance(0.1)
     profs = [gen_profile(rng.sub("prof", i), big) for i in range(rng.weighted([(1, 4), (2, 3), (3, 1)]))]
     r = rng.sub("hist")
@@ -93,7 +107,7 @@ def gen_plan(rng, tier, index=0):
                           "perm": r.weighted([(None, 5), ("desc", 2), (r.randrange(10 ** 6), 3)])})
         else:
             # the caller's units: heights in km / strengths as fractions, with the matching scalings passed along
-            steps.append({"op": "gctm", "prof": pi, "L": r.randint(1, max(1, min(3, N // 3))),
+            steps.append({"op": "gctm", "prof": pi, "L": r.randint(1, max(1, min(3 if r.chance(0.5) else (8 if tier == "thorough" else 6), N // 3))),
                           "perm": r.weighted([(None, 6), ("desc", 2), (r.randrange(10 ** 6), 2)]),
                           "units": r.weighted([(None, 5), ({"h": 1e-3, "p": 1.0}, 2), ({"h": 1.0, "p": 1e13}, 2), ({"h": 1e-3, "p": 3.7e14}, 2)])})
     if not any(s.get("op") == "og" for s in steps):
